@@ -17,7 +17,46 @@ WEIGHTS = {"sample": 0, "str": 0, "to_abstract_repr": 0, "build_copy": 0, "queri
            "config_detuning_map": 1.5, "add_dmm_detuning": 3, "config_slm_mask": 1.0, "target": 3}
 
 
+def xy_mask_script(ctx, idx, rng):
+    """Directed history: XY mode, SLM mask, two or three global microwave channels whose first pulses overlap the
+    end of the mask in every way (start with it, start inside it and end after it, start at its end)."""
+    dev = {"kind": "builtin", "name": "MockDevice"}
+    reg = gen.gen_register(rng, dev, nmin=2, nmax=4, kind="reg")
+    mon = RenderMonitor(ctx)
+    r = prog.Runner(ctx, dev, reg, [mon])
+    spec = r.chspecs["mw_global"]
+    ids = list(reg["ids"])
+    masked = rng.sample(ids, rng.randint(1, len(ids) - 1))
+    names = ["mwa", "mwb", "mwc"][:rng.randint(2, 3)]
+    d1 = gen.pick(rng, [40, 100, 128, 250])
+    ops = [{"op": "declare_channel", "name": n, "ch_id": "mw_global"} for n in names]
+    ops.insert(rng.randint(0, len(ops)), {"op": "config_slm_mask", "qubits": masked})
+    ops.append({"op": "add", "pulse": gen.gen_pulse(rng, spec, d=d1, pps_p=0.0, arb=0.0), "ch": names[0]})
+    for n in names[1:]:
+        s2 = gen.pick(rng, [0, 0, d1 // 2, d1 - 4, d1, d1 + 20])
+        if s2:
+            ops.append({"op": "delay", "duration": s2, "ch": n})
+        d2 = gen.pick(rng, [16, d1 // 2, d1, d1 + 60, 2 * d1])
+        ops.append({"op": "add", "pulse": gen.gen_pulse(rng, spec, d=max(4, d2), pps_p=0.0, arb=0.0), "ch": n,
+                    "protocol": "no-delay"})
+    for _ in range(rng.randint(0, 3)):
+        n = gen.pick(rng, names)
+        ops.append({"op": "add", "pulse": gen.gen_pulse(rng, spec, pps_p=0.2, arb=0.0), "ch": n,
+                    "protocol": gen.pick(rng, ["no-delay", "min-delay"])})
+    for op in ops:
+        ev = r.step(op)
+        if ev.exc is not None:
+            ctx.count("xy_script_call_refused")
+            break
+    else:
+        ctx.count("xy_mask_scripts_rendered")
+    r.finish()
+    ctx.mark_nontrivial(("xyscript", idx))
+
+
 def run_case(ctx, idx, rng, tier):
+    if idx % 12 == 5:
+        return xy_mask_script(ctx, idx, rng)
     xy = rng.random() < 0.2
     dev, reg = gen.header(rng, xy=xy, max_seq=0.05)
     mon = RenderMonitor(ctx)
